@@ -17,7 +17,10 @@ use wirm::Module;
 enum Path { Iter, IterInjectAt, ModInject, ModInjectAt }
 impl Path { fn code(&self) -> u32 { match self { Path::Iter => 0, Path::IterInjectAt => 1, Path::ModInject => 2, Path::ModInjectAt => 3 } } }
 
-struct SCase { nres: u32, nlocals: u32, body: Vec<Op>, plan: Plan, entry: Vec<Op>, exit: Vec<Op>, path: Path }
+struct SCase { nres: u32, nlocals: u32, body: Vec<Op>, plan: Plan, entry: Vec<Op>, exit: Vec<Op>, path: Path,
+               /// an unused i64 local declared after the i32 ones: a helper local the lowering allocates (the flag of a branch
+               /// probe) must then open a new group behind it, not extend the i32 group
+               tail_i64: bool }
 
 fn build(c: &SCase) -> Vec<u8> {
     use wasm_encoder as we;
@@ -40,7 +43,7 @@ fn build(c: &SCase) -> Vec<u8> {
     gs.global(we::GlobalType { val_type: we::ValType::I32, mutable: true, shared: false }, &we::ConstExpr::i32_const(0));
     m.section(&gs);
     let mut code = we::CodeSection::new();
-    let mut f = we::Function::new([(c.nlocals, we::ValType::I32)]);
+    let mut f = if c.tail_i64 { we::Function::new([(c.nlocals, we::ValType::I32), (1, we::ValType::I64)]) } else { we::Function::new([(c.nlocals, we::ValType::I32)]) };
     for op in &c.body { f.instruction(&op.enc()); }
     code.function(&f);
     let mut h = we::Function::new([]);
@@ -67,9 +70,25 @@ fn gen(r: &mut Rng, prop: &str) -> (SCase, Vec<u8>) {
         };
         if nres == 1 && !dead { g.out.push(Op::Const(42)); }
         g.out.push(Op::End);
-        let body = g.out.clone();
+        let mut body = g.out.clone();
         let nlocals = g.next_local - 2;
-        let mut c = SCase { nres, nlocals, body, plan: vec![], entry: vec![], exit: vec![], path: Path::Iter };
+        // C20 / C16: now and then a conditional branch to its own `if` closes a then-arm (directly in front of the `else`)
+        if (prop == "C20" || prop == "C16") && g.r.chance(1, 2) {
+            let mut stack: Vec<(usize, bool)> = vec![];     // (opener index, is an `if` without result)
+            let mut spots: Vec<usize> = vec![];
+            for (j, op) in body.iter().enumerate() {
+                match op {
+                    Op::Block(_) | Op::Loop(_) => stack.push((j, false)),
+                    Op::If(bt) => stack.push((j, *bt == Bt::Empty)),
+                    Op::Else => { if let Some((_, true)) = stack.last() { spots.push(j); } }
+                    Op::End => { stack.pop(); }
+                    _ => {}
+                }
+            }
+            if !spots.is_empty() { let j = *g.r.pick(&spots); body.insert(j, Op::BrIf(0)); body.insert(j, Op::LocalGet(0)); }
+        }
+        let tail_i64 = g.r.chance(1, 2);
+        let mut c = SCase { nres, nlocals, body, plan: vec![], entry: vec![], exit: vec![], path: Path::Iter, tail_i64 };
         let bytes = build(&c);
         if !validates(&bytes) { continue; }
         let mut pid = 1000;
@@ -190,13 +209,13 @@ fn main() {
         let obs_s = match &obs { None => "None".into(), Some((b, g)) => format!("(Some ({}, {}))", coq_ops(b), coq_groups(g)) };
         // lcase: nparams numlocals groups entry exit exit_ty body plan path skipped obs obs2_same bugs
         let coq = format!(
-            "mkS (mkCase 2 {} [({}, 0)] {} {} 2 {} {} {} false {} true 0) {}%nat {} [{}]",
-            c.nlocals, c.nlocals, coq_ops(&c.entry), coq_ops(&c.exit), coq_ops(&c.body), coq_plan(&c.plan), c.path.code(), obs_s,
+            "mkS (mkCase 2 {} [({}, 0){}] {} {} 2 {} {} {} false {} true 0) {}%nat {} [{}]",
+            c.nlocals + if c.tail_i64 { 1 } else { 0 }, c.nlocals, if c.tail_i64 { "; (1, 1)" } else { "" }, coq_ops(&c.entry), coq_ops(&c.exit), coq_ops(&c.body), coq_plan(&c.plan), c.path.code(), obs_s,
             c.nres, coq_bool(valid), argv.join("; ")
         );
         let desc = format!(
-            "nres={} nlocals={} path={:?} body=[{}] plan=[{}] entry=[{}] exit=[{}] args={} => {} valid={}",
-            c.nres, c.nlocals, c.path, show_ops(&c.body), show_plan(&c.plan), show_ops(&c.entry), show_ops(&c.exit), argv.join(" "),
+            "nres={} nlocals={} tail_i64={} path={:?} body=[{}] plan=[{}] entry=[{}] exit=[{}] args={} => {} valid={}",
+            c.nres, c.nlocals, c.tail_i64, c.path, show_ops(&c.body), show_plan(&c.plan), show_ops(&c.entry), show_ops(&c.exit), argv.join(" "),
             match &obs { None => "PANIC".to_string(), Some((b, _)) => format!("body=[{}]", show_ops(b)) }, valid
         );
         let mut tags = vec![format!("path={:?}", c.path), format!("plan_len={}", c.plan.len()), format!("valid_out={}", valid), format!("body_len_bucket={}", c.body.len() / 10 * 10)];
